@@ -13,7 +13,7 @@ HOSTILE = [b"contract Broken { function (", b"\x00\x9f\x92\x96\x00\xff\xfe\n\x00
 
 def contents():
     d = os.path.join(ROOT, "corpus", "dirwalk")
-    return {c: open(os.path.join(d, c + ".sol"), "rb").read() for c in ("c1", "c2", "c3", "c4", "c5", "c6", "c8", "c9")}
+    return {c: open(os.path.join(d, c + ".sol"), "rb").read() for c in ("c1", "c2", "c3", "c4", "c5", "c6", "c8", "c9", "c10")}
 
 
 def eligible(name):
